@@ -308,6 +308,13 @@ def verify_function(ctx, relpath, qual, canary=True, struct=None, label=None):
             continue
         ov = (struct or {}).get(a.arg, c.params.get(a.arg))
         st.env[a.arg] = make_param(eng, st, a.arg, ann_text(a), ov)
+    if node.args.vararg is not None:
+        va = node.args.vararg.arg
+        ov = (struct or {}).get(va, c.params.get(va))
+        if ov is None:
+            raise OutOfReach('no sort for *%s' % va)
+        st.env[va] = tuple(make_param(eng, st, va, None, ov))
+        params.append(va)
     nob0 = len(ctx.obligations)
     if label:
         fr.case_label = label
